@@ -2,6 +2,8 @@ package props
 
 import (
 	"strings"
+	"unicode"
+	"unicode/utf8"
 	"os"
 	"github.com/ethereum/go-ethereum/common"
 	"fmt"
@@ -29,10 +31,15 @@ type call struct {
 
 // recordHistory generates a history with the shared generator and returns the
 // flat call list (the application is deterministic given the calls: C09).
-func recordHistory(rt *rapid.T, poolKeys, maxSteps int, fail failFn) (Genesis, []call, *Chain) {
+func recordHistory(rt *rapid.T, poolKeys, maxSteps int, fail failFn, focusChoices ...string) (Genesis, []call, *Chain) {
 	g := genGenesis(rt)
 	c := NewChain(g, 1, fail)
 	c.PoolKeys = poolKeys
+	// the shared generator has three biases (see genMessage); histories of every kind are wanted
+	if len(focusChoices) == 0 {
+		focusChoices = []string{"", "validators", "validators", "dkg"}
+	}
+	c.Focus = rapid.SampledFrom(focusChoices).Draw(rt, "focus")
 	var calls []call
 	lastH := int64(0)
 	n := rapid.IntRange(5, maxSteps).Draw(rt, "len")
@@ -121,6 +128,20 @@ func runCalls(g Genesis, calls []call, fail failFn) (*app.ShutterApp, []respRec)
 var appCmpOpts = []cmp.Option{
 	cmpopts.EquateEmpty(),
 	cmpopts.IgnoreFields(app.ShutterApp{}, "Gobpath", "LastSaved"),
+	// Unexported fields of the application's own structs are neither persisted (gob) nor part of the
+	// replicated state the property speaks about (caches, memoised values); a divergence they cause
+	// shows in the responses or in the exported state. Without this go-cmp panics on them.
+	cmp.FilterPath(func(p cmp.Path) bool {
+		sf, ok := p.Last().(cmp.StructField)
+		if !ok || len(p) < 2 {
+			return false
+		}
+		r, _ := utf8.DecodeRuneInString(sf.Name())
+		if unicode.IsUpper(r) {
+			return false
+		}
+		return strings.HasSuffix(p.Index(-2).Type().PkgPath(), "/rolling-shutter/app")
+	}, cmp.Ignore()),
 }
 
 func appDiff(a, b *app.ShutterApp) string { return cmp.Diff(*a, *b, appCmpOpts...) }
